@@ -1,0 +1,82 @@
+#ifndef NMTOOLS_UTILITY_VERIF_INDEX_HPP
+#define NMTOOLS_UTILITY_VERIF_INDEX_HPP
+
+// Helpers for the runtime-monitoring hooks (only used when NMTOOLS_VERIF is defined).
+
+#include "nmtools/verif.hpp"
+
+#ifdef NMTOOLS_VERIF
+
+#include "nmtools/meta.hpp"
+#include "nmtools/utility/at.hpp"
+#include "nmtools/utility/shape.hpp"
+
+namespace nmtools::verif
+{
+    template <typename T>
+    constexpr long long to_ll(const T& t)
+    {
+        if constexpr (meta::is_constant_index_v<T>) {
+            return static_cast<long long>(T::value);
+        } else {
+            return static_cast<long long>(t);
+        }
+    }
+
+    template <auto I, typename array_t>
+    constexpr long long element_at(const array_t& array)
+    {
+        if constexpr (meta::is_tuple_v<array_t> || meta::is_constant_index_array_v<array_t>) {
+            return to_ll(nmtools::at(array,meta::ct_v<I>));
+        } else {
+            return to_ll(nmtools::at(array,(nm_size_t)I));
+        }
+    }
+
+    /**
+     * @brief Report one (index,extent) event per axis.
+     * Does nothing when the number of indices and the number of axes differ
+     * or when the argument kinds are not index arrays.
+     */
+    template <typename indices_t, typename shape_t>
+    constexpr void check_indices([[maybe_unused]] int site, [[maybe_unused]] const indices_t& indices, [[maybe_unused]] const shape_t& shape)
+    {
+        if constexpr (meta::is_index_array_v<indices_t> && meta::is_index_array_v<shape_t>) {
+            constexpr auto N = meta::len_v<indices_t>;
+            constexpr auto M = meta::len_v<shape_t>;
+            if constexpr ((N > 0) && (M > 0)) {
+                if constexpr (N == M) {
+                    meta::template_for<N>([&](auto i){
+                        constexpr auto I = decltype(i)::value;
+                        bounds(site,element_at<I>(indices),element_at<I>(shape));
+                    });
+                }
+            } else if constexpr (N > 0) {
+                if ((nm_size_t)N == (nm_size_t)nmtools::len(shape)) {
+                    meta::template_for<N>([&](auto i){
+                        constexpr auto I = decltype(i)::value;
+                        bounds(site,element_at<I>(indices),to_ll(nmtools::at(shape,(nm_size_t)I)));
+                    });
+                }
+            } else if constexpr (M > 0) {
+                if ((nm_size_t)M == (nm_size_t)nmtools::len(indices)) {
+                    meta::template_for<M>([&](auto i){
+                        constexpr auto I = decltype(i)::value;
+                        bounds(site,to_ll(nmtools::at(indices,(nm_size_t)I)),element_at<I>(shape));
+                    });
+                }
+            } else {
+                auto n = (nm_size_t)nmtools::len(indices);
+                if (n == (nm_size_t)nmtools::len(shape)) {
+                    for (nm_size_t i=0; i<n; i++) {
+                        bounds(site,to_ll(nmtools::at(indices,i)),to_ll(nmtools::at(shape,i)));
+                    }
+                }
+            }
+        }
+    }
+} // namespace nmtools::verif
+
+#endif // NMTOOLS_VERIF
+
+#endif // NMTOOLS_UTILITY_VERIF_INDEX_HPP
